@@ -510,3 +510,18 @@ func mctimeReset() { mctime.Reset() }
 
 // Cleanup closes every descriptor the ledger still lists as open (executions that were unwound).
 func (w *world) Cleanup() { mcsys.CloseAllOpen() }
+
+// ledgerFirst returns the first ledger violation whose signature (with the given prefix) is not a
+// recorded known finding, else the first one: a known finding must not hide a different violation
+// that happens later in the same execution.
+func ledgerFirst(prefix string) (string, string) {
+	if mcsys.L == nil || len(mcsys.L.Violations) == 0 {
+		return "", ""
+	}
+	for i, sig := range mcsys.L.Sigs {
+		if !sched.IsKnown(prefix + sig) {
+			return mcsys.L.Violations[i], sig
+		}
+	}
+	return mcsys.L.Violations[0], mcsys.L.Sigs[0]
+}
